@@ -69,7 +69,7 @@ func splitComma(s string) []string {
 func (m *ctxModel) refreshPages(d *driver.Driver, p0, np int) (changed, moved int) {
 	pt := d.VerifPageTable()
 	for pg := p0; pg < p0+np; pg++ {
-		page, ok := pt.Find(m.pid, m.base+uint64(pg*pageSize))
+		page, ok := pt.Find(m.pid, m.pageVA[pg])
 		if !ok {
 			panic("harness: page not mapped")
 		}
@@ -269,7 +269,7 @@ func (th *thread) rehome(m *ctxModel, sp rehomeSpec) {
 	}
 	switch sp.How {
 	case "remap":
-		c.d.Remap(m.ctx, m.base+uint64(sp.Off), uint64(sp.N), sp.GPUs[0])
+		c.d.Remap(m.ctx, uint64(m.ptr(sp.Off)), uint64(sp.N), sp.GPUs[0])
 	case "distribute":
 		c.d.Distribute(m.ctx, m.ptr(sp.Off), uint64(sp.N), sp.GPUs)
 	default:
